@@ -115,6 +115,9 @@ class C18(Base):
     def gen_locales(self, rng):
         n = rng.choice([0, 1, 1, 2, 2, 2, 3, 3, 4])
         ls = [rng.choice(LOC_POOL) for _ in range(n)] if rng.random() < 0.2 else rng.sample(LOC_POOL, n)
+        if ls and rng.random() < 0.15:
+            k = rng.randrange(len(ls))
+            ls.insert(k, ls[k])                 # the same locale twice in a row
         return ",".join(ls) if ls else "-"
 
     def gen_key(self, rng):
